@@ -12,7 +12,9 @@
       [RInv r (bal A_reward (rw_denom r))] holds in every reached world.
     - [claim_tx_succeeds]: a ClaimRewards transaction of a holder with >= 1 whole unit accrued
       succeeds end to end (handler and bank transfer) and pays exactly [acc / D].
-    - [rwinv_nonvacuous]: a concrete history satisfying all hypotheses. *)
+    - [reward_state_changes_only_by_handler]: (C15) no other contract or chain message touches
+      the reward state.
+    - [rwinv_nonvacuous], [claim_tx_nonvacuous]: a concrete history satisfying all hypotheses. *)
 From Krp Require Import Tactics Prelude Fixed FMap Types Env Registry Cw20 Reward Dispatcher Hub Exec
      ExecP Hist Inv Auth RewardP.
 Open Scope N_scope.
@@ -637,4 +639,89 @@ Proof.
     + intros Hne. split.
       * rewrite bal_credit_other by congruence. exact Hs.
       * rewrite bal_credit_same. rewrite Ho by congruence. reflexivity.
+Qed.
+
+(** ** 6b. (C15 e) the reward state changes only through the reward contract's own handler:
+    whatever message is executed anywhere in the protocol (token transfers, sends, burns, hub
+    bonding / unbonding, dispatcher, registry, bank and staking messages), either the reward
+    state is untouched or the message was a call into the reward contract, whose effect on each
+    holder is given by [inc_preserves_acc], [dec_preserves_acc], [other_holder_untouched],
+    [accrual_step], [claim_succeeds_exact] *)
+Theorem reward_state_changes_only_by_handler w s m w' out :
+  step_msg w s m = Some (w', out) ->
+  w_reward w' = w_reward w \/
+  exists w1 r rm r' o,
+    w_reward w = Some r /\ w_reward w' = Some r' /\
+    reward_execute w1 r A_reward s rm = Some (r', o) /\
+    (exists wm funds, m = MWasm A_reward wm funds /\
+       (wm = WReward rm \/ exists n, wm = WHub (HUpdateGlobal n) /\ rm = RUpdateIndex)).
+Proof.
+  intros H. apply step_msg_inv in H.
+  destruct H as [e' -> -> _ | to wm funds e1 o -> Hsend Hc ->]; [left; reflexivity|].
+  destruct Hc as [h hm h' -> _ _ _ -> | r rm r' -> Hm Hr He -> | dd dm d' -> _ _ _ ->
+                 | g gm g' -> _ _ _ -> | t cm t' -> _ _ _ -> | t cm t' -> _ _ _ ->
+                 | sm e' -> _ _ -> -> | -> -> ->]; try (left; reflexivity).
+  right. exists (set_env w e1), r, rm, r', o. split; [exact Hr|]. split; [reflexivity|].
+  split; [exact He|]. exists wm, funds. split; [reflexivity | exact Hm].
+Qed.
+
+(** ** 7. non-vacuity: a concrete history inside the envelope *)
+Definition ex_ops : list op :=
+  [ OInstHub A_owner 30 100 0 0 A_owner usei uusd;
+    OInstReward A_owner A_hub uusd A_swap [uatom];
+    OTx A_owner A_hub (WHub (HConfig (Some A_disp) (Some A_reg) (Some A_bsei) (Some A_stsei) None
+                                     (Some A_reward) None)) [];
+    OTx A_bsei A_reward (WReward (RInc 20 3)) [];
+    OTx A_bsei A_reward (WReward (RInc 21 4)) [];
+    OGift A_reward uusd 10;
+    OTx A_disp A_reward (WReward RUpdateIndex) [];
+    OTx 20 A_reward (WReward (RClaim None)) [] ].
+
+Definition ex_world : world := run_ops ex_ops (empty_world 100).
+(** the world just before the claim *)
+Definition ex_world7 : world := run_ops (firstn 7 ex_ops) (empty_world 100).
+
+Lemma ex_no_reward_root : NoRewardRoot ex_ops.
+Proof. unfold NoRewardRoot, ex_ops. repeat constructor; intro X; vm_compute in X; discriminate X. Qed.
+
+Lemma renv_check d0 w :
+  match w_reward w with
+  | Some r => rw_denom r = d0 /\ ~ In d0 (rw_denoms r) /\
+              is_contract (rw_owner r) = false /\ is_contract (rw_newowner r) = false
+  | None => True
+  end -> REnv d0 w.
+Proof. intros H r Hr. rewrite Hr in H. exact H. Qed.
+
+Lemma ex_always : always (REnv uusd) ex_ops (empty_world 100).
+Proof.
+  unfold ex_ops. cbn [always].
+  repeat (split; [apply renv_check; vm_compute; try exact I;
+                  repeat split; try reflexivity; intros [X|[]]; discriminate X|]).
+  exact I.
+Qed.
+
+Example rwinv_nonvacuous :
+  NoRewardRoot ex_ops /\ always (REnv uusd) ex_ops (empty_world 100) /\ RWInv ex_world /\
+  exists r, w_reward ex_world = Some r /\ rw_prev r = 6 /\ rw_total r = 7 /\
+            bal (w_env ex_world) A_reward uusd = 6 /\ bal (w_env ex_world) 20 uusd = 4 /\
+            acc r 21 = 5714285714285714284.
+Proof.
+  split; [exact ex_no_reward_root|]. split; [exact ex_always|].
+  split; [apply (rwinv_from_empty uusd); [exact ex_no_reward_root | exact ex_always]|].
+  eexists. split; [vm_compute; reflexivity|]. repeat split; vm_compute; reflexivity.
+Qed.
+
+(** hypotheses of [claim_tx_succeeds] hold for holder 20 in the world before its claim *)
+Example claim_tx_nonvacuous :
+  exists r, w_reward ex_world7 = Some r /\ RWInv ex_world7 /\ RBound r /\ D <= acc r 20.
+Proof.
+  eexists. split; [vm_compute; reflexivity|]. split.
+  - apply (rwinv_reachable uusd).
+    + unfold NoRewardRoot, ex_ops. cbn [firstn]. repeat constructor; intro X; vm_compute in X; discriminate X.
+    + unfold ex_ops. cbn [firstn always].
+      repeat (split; [apply renv_check; vm_compute; try exact I;
+                      repeat split; try reflexivity; intros [X|[]]; discriminate X|]).
+      exact I.
+    + intros r Hr. discriminate Hr.
+  - split; [split; vm_compute; intro X; discriminate X | vm_compute; intro X; discriminate X].
 Qed.
